@@ -2,6 +2,7 @@
 discipline, consistent permutations; not the numerical contracts)."""
 from ..rules import shape_rules as S
 from ..rules import sibling_rules as SI
+from ..rules import misc_rules as MI
 from ..rules import dtype_rules as D
 from ..rules.common import u1
 
@@ -26,6 +27,10 @@ def run(ctx):
     ctx.do(SI.rule_pa1)
     ctx.do(SI.rule_svd1)
     ctx.do(SI.rule_eigh1)
+    ctx.do(MI.rule_form1)
+    ctx.do(MI.rule_ori1)
+    ctx.do(MI.rule_nonneg1, ["geometry_tools/utils/core.py", "geometry_tools/coxeter.py"])
+    ctx.do(MI.rule_eigh2, ["geometry_tools/utils/core.py", "geometry_tools/coxeter.py"])
     ctx.do(D.rule_t3, [CORE])
     ctx.do(u1, ENTRIES, min_functions=12)
     ctx.r.assume("orthogonality, spans, signatures, kernels, that the "
